@@ -271,6 +271,9 @@ func checkAndReplaceSequence(state *BuildState, target, dep *BuildTarget, ep, in
 		panic(fmt.Sprintf("Rule %s is tagged as binary but produces no output.", dep.Label))
 	} else if test && tool {
 		panic(fmt.Sprintf("Rule %s uses %s in its test command, but tools are not accessible at test time", target, dep))
+	} else if allOutputs && !multiple && len(dep.Outputs()) == 0 && ep == "" {
+		// Label must have an output to expand to.
+		panic(fmt.Sprintf("Rule %s can't use %s; %s has no outputs.", target.Label, in, dep.Label))
 	}
 	if hash {
 		h, err := state.TargetHasher.OutputHash(dep)
